@@ -32,6 +32,7 @@ from ..alias import (
     param_names,
     pick_def,
     stable_ref,
+    thorough_selftest,
     writes_of,
 )
 from ..core import AnalysisError, Report
@@ -379,7 +380,7 @@ def rule_data_setter(rep: Report, ix, clf: Classifier) -> None:
             continue
         ws = [w for w in writes_of(p, clf, f) if not w.local_only]
         good = [w for w in ws if w.kind == "store" and w.chain in ("self._data_valid",) and valid_cells_only(w)]
-        n += len(good)
+        n += 1
         bad = [w for w in ws if w not in good]
         ok = bool(good) and not bad
         rep.oblige(f"data-setter:path{n}", ok, [w.show() for w in ws])
@@ -390,7 +391,7 @@ def rule_data_setter(rep: Report, ix, clf: Classifier) -> None:
                 f"assigning to `data` must store values into `self._data_valid[...]` and nothing else; found {[w.show() for w in ws] or 'no store'}",
                 line=f.node.lineno,
             )
-    rep.floor("value stores in the `data` setter", n, 2)
+    rep.floor("normally returning paths of the `data` setter", n, 2)
 
 
 def rule_inplace(rep: Report, ix, clf: Classifier, classes) -> None:
@@ -418,7 +419,7 @@ def rule_inplace(rep: Report, ix, clf: Classifier, classes) -> None:
                     what = "the padded array (ghost cells included)" if any(set(segments(r)) & PADDED for r in w.val.roots | {w.chain}) else "something other than this field's valid cells"
                     rep.violation(
                         "C15.inplace-writes-valid-only",
-                        f"{ref}::{w.kind}:{re.sub(r'^[a-z_]+', lambda m: m.group(0), w.chain)}",
+                        f"{ref}::{w.kind}:{'+'.join(sorted(w.val.roots)) or w.chain}",
                         f"in-place operation writes to {what}: {w.show()}",
                         line=getattr(w.node, "lineno", None),
                     )
@@ -778,10 +779,11 @@ def _check_slice_bookkeeping(p: Path, w: Write, loop: ast.For, members):
         return f"slices are not recorded in a loop over {members[0]}"
     call = w.node
     raw = call.args[0] if call.args else None
+    eval_at = w.idx
     if isinstance(raw, ast.Name):  # `sl = slice(..)` hoisted into a local
         d = p.lookup(raw.id, w.idx)
         if d is not None and d.kind == "assign" and d.value is not None:
-            raw = d.value
+            raw, eval_at = d.value, d.idx
     sl = as_slice(raw) if raw is not None else None
     if sl is None or sl[0] is None or sl[1] is None or sl[2] is not None:
         return f"recorded slice is `{ast.unparse(call.args[0]) if call.args else None}`"
@@ -796,13 +798,13 @@ def _check_slice_bookkeeping(p: Path, w: Write, loop: ast.For, members):
     lower_at = None
     lower = sl[0]
     if isinstance(lower, ast.Name):
-        d = p.lookup(lower.id, w.idx)
+        d = p.lookup(lower.id, eval_at)
         if d is not None and d.kind == "assign" and d.value is not None:
             lower_at, lower = d.idx, d.value
-    upper_at = w.idx
+    upper_at = eval_at
     upper = sl[1]
     if isinstance(upper, ast.Name):
-        d = p.lookup(upper.id, w.idx)
+        d = p.lookup(upper.id, eval_at)
         if d is not None and d.kind == "assign" and d.value is not None:
             upper_at, upper = d.idx, d.value
     acc = len_of(upper)
@@ -813,7 +815,7 @@ def _check_slice_bookkeeping(p: Path, w: Write, loop: ast.For, members):
     if lower_at is None or len(ext) != 1 or not (lower_at < ext[0] < upper_at):
         return "the start of the slice is not taken before, or its end not after, the member's rows are added to the accumulator"
     added = p.evs[ext[0]].node.value
-    src = expand(added.args[0], p, ext[0], max_depth=2) if added.args else None
+    src = expand(added.args[0], p, ext[0]) if added.args else None
     if added.func.attr != "extend" or chain_str(src) != f"{elem}._data_flat":
         return f"rows added are `{ast.unparse(src) if src is not None else None}`, expected the member's `_data_flat`"
     return True
@@ -824,8 +826,9 @@ def _check_relink(p: Path, w: Write, loop: ast.For, clf: Classifier, f: FuncInfo
     if counter is None or elem is None:
         return f"re-link loop is not `for i, field in enumerate({members[0]})`"
     tgt = w.node
-    if chain_str(tgt) != f"{elem}._data_flat":
-        return f"re-link assigns `{chain_str(tgt)}`"
+    owner = clf.classify(tgt.value, p, w.idx, f)
+    if not (owner.shares and owner.roots and all(r in {m + "[]" for m in members} for r in owner.roots)):
+        return f"re-link assigns `{chain_str(tgt)}` of {owner.show()}, not of the enumerated member"
     val = expand(w.value, p, w.idx) if w.value is not None else None
     ok = (
         isinstance(val, ast.Subscript)
@@ -896,7 +899,9 @@ def rule_out_protocol(rep: Report, ix, clf: Classifier, classes) -> None:
                     callee = re.search(r"unresolved call ([\w.]+)\(", v.why)
                     key = (f"{f.module.rel}::{f.qualname}", callee.group(1) if callee else "?")
                     if key in OUT_RESULT_EXCEPTIONS:
-                        rep.note(f"{ref}: result for `out is None` comes from {key[1]}(): {OUT_RESULT_EXCEPTIONS[key]} (not analysed)")
+                        msg = f"{ref}: result for `out is None` comes from {key[1]}(): {OUT_RESULT_EXCEPTIONS[key]} (not analysed)"
+                        if msg not in rep.notes:
+                            rep.note(msg)
                     else:
                         raise AnalysisError(f"{ref}: cannot classify the result for `out is None`: {v.why}")
                 else:
@@ -1071,4 +1076,5 @@ def check(tier: str) -> Report:
         "operator results (apply_operator) are covered through the out-protocol rule; storages through C20",
         "aliasing introduced by numpy itself for exotic dtypes/strides is not decided",
     ]
+    thorough_selftest(rep)
     return rep
